@@ -1,6 +1,7 @@
 """An async vector pettingzoo environment"""
 
 import multiprocessing as mp
+import pickle
 import sys
 import time
 import traceback
@@ -980,6 +981,12 @@ def _async_worker(
     except (KeyboardInterrupt, Exception):
         error_type, error_message, _ = sys.exc_info()
         trace = traceback.format_exc()
+        try:
+            # The exception has to survive the trip through the queue
+            pickle.loads(pickle.dumps((error_type, error_message)))
+        except Exception:
+            error_message = RuntimeError(f"{error_type.__name__}: {error_message}")
+            error_type = RuntimeError
         error_queue.put((index, error_type, error_message, trace))
         pipe.send((None, False))
 
